@@ -238,7 +238,7 @@ func TestVerif_C07(t *testing.T) {
 	run := verifkit.Start(t, "C07", "collect")
 	defer run.Finish()
 	defer e1TuneRuntime(run)()
-	run.Rule("seeded buffers on the real collector (1-4 workers): 0-14 traces of 1-6 spans with payloads of 0-5000 bytes (2 KB-400 KB in histories with a real memory check), with and without root, over the span limit, partly aged on the fake clock, arrival times backdated by 0-5.5 quarter-timeouts; 1-4 ejection rounds per history with more spans in between; budgets from {0,1,P_k-1,P_k,P_k+1,Σ/2,Σ,10Σ,2^40} of the impact-ordered buffer of one worker, sent to one or all workers, or produced by the real monitor→checkAlloc with the limit set just below the heap; between rounds the survivors age by 1-3 quarter-timeouts and some receive another span; before a real memory check the configured Collection.WorkerCount is reloaded to another value in 60 % of the cases; samplers with a driver-known decision (field rule, has-root rule, deterministic 1); non-trivial = a partial ejection (0<|E|<|buffer|) on a buffer whose impact order differs from its size order; distinct = (kind, workers, budget class, |buffer| and |E| buckets)")
+	run.Rule("seeded buffers on the real collector (1-4 workers): 0-14 traces of 1-6 spans with payloads of 0-5000 bytes (2 KB-400 KB in histories with a real memory check), with and without root, over the span limit, partly aged on the fake clock, arrival times backdated by 0-5.5 quarter-timeouts; 1-4 ejection rounds per history with more spans in between; budgets from {0,1,P_k-1,P_k,P_k+1,Σ/2,Σ,10Σ,2^40} of the impact-ordered buffer of one worker, sent to one or all workers, or produced by the real monitor→checkAlloc with the limit set just below the heap; between rounds the survivors age by 1-3 quarter-timeouts and some receive another span; before a real memory check the configured Collection.WorkerCount is reloaded to another value in 60 % of the cases; in 26 % of the histories the kept-decision cache holds 1-2 records per worker, newer kept decisions push out the records of ejected traces and late spans re-buffer those ids before the next round; samplers with a driver-known decision (field rule, has-root rule, deterministic 1); non-trivial = a partial ejection (0<|E|<|buffer|) on a buffer whose impact order differs from its size order; distinct = (kind, workers, budget class, |buffer| and |E| buckets)")
 	run.Assume("the ejection order is judged against Trace.CacheImpact(TraceTimeout) as read while the worker is parked (equal impacts in any order); that value itself is judged against the reference estimate Σ span data size × (1 + completed quarters of TraceTimeout since arrival), with ages known to the driver from its own backdating; a trace without a new span since the previous reading may still carry that reading")
 	run.Assume("no span arrives and no send tick fires during an ejection step; kept-decision capacity far above the trace count; DryRun off")
 
@@ -251,7 +251,14 @@ func TestVerif_C07(t *testing.T) {
 			tt = 60 * time.Second
 		}
 		withReal := rng.Chance(0.35)
-		cfg := E1Config{Workers: workers, AddRuleReason: rng.Chance(0.6), AddSpanCount: rng.Bool(),
+		// tiny decision cache: kept records of ejected traces are forgotten quickly, so late spans re-buffer their ids
+		tinyCache := !withReal && rng.Chance(0.4)
+		var keptSize uint
+		if tinyCache {
+			workers = verifkit.Pick(rng, 1, 1, 2)
+			keptSize = uint(workers * rng.Range(1, 2))
+		}
+		cfg := E1Config{Workers: workers, KeptSize: keptSize, AddRuleReason: rng.Chance(0.6), AddSpanCount: rng.Bool(),
 			Traces: config.TracesConfig{SendTicker: config.Duration(tick), SendDelay: config.Duration(verifkit.Pick(rng, 500, 1000, 2000) * int(time.Millisecond)), TraceTimeout: config.Duration(ttCfg),
 				SpanLimit: uint(verifkit.Pick(rng, 0, 0, 3)), MaxExpiredTraces: 3000},
 			Samplers: map[string]*config.V2SamplerChoice{
@@ -353,6 +360,7 @@ func TestVerif_C07(t *testing.T) {
 
 		var obsLog []c07EjectObs
 		abandoned := false
+		var ejectedKept []string // ids of traces ejected and kept so far (their records can be forgotten by a tiny cache)
 
 		// judge compares snapshot, post-state, step events and counter deltas of one ejection step.
 		judge := func(o *c07EjectObs, ctr0 map[string]int64) {
@@ -497,6 +505,7 @@ func TestVerif_C07(t *testing.T) {
 						continue
 					}
 					wantKept++
+					ejectedKept = append(ejectedKept, s.Trace)
 					seen := map[string]int{}
 					for _, ev := range evs {
 						seen[ev.ID]++
@@ -807,6 +816,31 @@ func TestVerif_C07(t *testing.T) {
 			realAt = rng.Intn(nEj)
 		}
 		for k := 0; k < nEj && e.Failed() == "" && !abandoned; k++ {
+			if k > 0 && tinyCache && len(ejectedKept) > 0 {
+				// push the kept records of earlier ejections out of the tiny kept-decision LRU with newer kept decisions
+				// (rooted, deterministic-1 traces decided normally), then send late spans for the ejected ids: an id the
+				// cache has forgotten is buffered again as a new trace and must survive later rounds like any other
+				for n := workers * rng.Range(2, 4); n > 0; n-- {
+					p := &c07Plan{ID: rng.Hex(32), Env: "env-det", Keep: true}
+					plans[p.ID] = p
+					s := e.NewSpan(p.ID, "root")
+					s.Env, s.Dataset = p.Env, "ds-"+p.Env
+					s.Fields = map[string]any{"verif.keep": "yes", "pad": "x"}
+					_ = e.AddSpan(s)
+				}
+				sd, _ := e.EffectiveTimes()
+				c07Advance(e, sd+tick)
+				for _, id := range ejectedKept {
+					if rng.Chance(0.7) {
+						p := plans[id]
+						s := e.NewSpan(p.ID, "child")
+						s.Env, s.Dataset = p.Env, "ds-"+p.Env
+						s.Fields = map[string]any{"verif.keep": e1KeepValue(p.Keep), "pad": c07Pad(rng, false)}
+						_ = e.AddSpan(s)
+						run.Count("late_spans_for_ejected_ids_in_tiny_cache_histories", 1)
+					}
+				}
+			}
 			if k > 0 {
 				// survivors of the previous round grow older, then some of them receive another span
 				if rng.Chance(0.6) {
@@ -852,6 +886,28 @@ func TestVerif_C07(t *testing.T) {
 			return
 		}
 		if abandoned {
+			return
+		}
+		if tinyCache {
+			// conservation at the end of the history instead of the record check (records are forgotten on purpose):
+			// every accepted span of a trace its sampler keeps is at the transmission exactly once
+			for _, id := range f.Order {
+				obs := f.Traces[id]
+				p := plans[id]
+				if p == nil || !(p.Env == "env-det" || (p.Env == "env-rules" && p.Keep)) {
+					continue
+				}
+				for _, a := range obs.Accepted {
+					if n := len(obs.Forwarded[a.Span.ID]); n != 1 {
+						run.Violation("C07/conservation/span-of-kept-trace-not-forwarded-exactly-once", fmt.Sprintf("span %s of trace %s (%s, kept by its sampler) reached the transmission %d times by the end of the history", a.Span.ID, id, p.Env, n),
+							map[string]any{"config": cfg.describe(), "trace": id, "accepted": obs.Accepted, "forwarded": obs.Forwarded, "ejections": obsLog, "ops": e.Ops()})
+						break
+					}
+				}
+			}
+			run.Count("tiny_cache_histories", 1)
+			run.Count("events_forwarded", int64(e.EventCount()))
+			run.Count("steps", int64(e.Step()))
 			return
 		}
 		// end of history: every ejected trace has a decision on record that matches the sampler
